@@ -60,10 +60,10 @@ Definition fitinv (c : cfg) (s : st) : Prop :=
   forall p v sz, pget p (prods s) = Some v -> wsz v = Some sz -> sz <= cap c.
 
 Lemma fitinv_step c s l s' z :
-  fitinv c s -> fit_label c l -> step c s l = Some (s', z) -> fitinv c s'.
+  fitinv c s -> step c s l = Some (s', z) -> fitinv c s'.
 Proof.
-  intros I W H. revert I W. unfold fitinv, fit_label. revert H.
-  step_cases; intros I6 W; try (specialize (W eq_refl));
+  intros I H. revert I. unfold fitinv. revert H.
+  step_cases; intros I6;
     try match goal with
     | H : pget ?p (prods s) = Some (?C ?sz) |- _ => pose proof (I6 p _ sz H eq_refl)
     end;
@@ -76,14 +76,14 @@ Definition wakeinv (s : st) : Prop :=
   0 < waiting s -> 0 < size s \/ tok s = true \/ 0 < cnt is_lefttok (prods s).
 
 Lemma wakeinv_step c s l s' z :
-  corrupt s = [] -> faulty s = [] -> tokinv s -> sizeinv c s -> fitinv c s -> wakeinv s ->
-  wf_label c l -> fit_label c l ->
+  corrupt s = [] -> tokinv s -> sizeinv c s -> fitinv c s -> wakeinv s ->
+  wf_label c l ->
   step c s l = Some (s', z) -> wakeinv s'.
 Proof.
-  intros NF NF2 (T1 & _ & T3 & _) (B1 & _ & _ & _ & B5 & B6) F N W1 W2 H.
-  revert T1 T3 B1 B5 B6 F N W1 W2. unfold wakeinv, fitinv, wf_label, fit_label.
+  intros NF (T1 & _ & T3 & _) (B1 & _ & _ & _ & B5 & B6) F N W1 H.
+  revert T1 T3 B1 B5 B6 F N W1. unfold wakeinv, fitinv, wf_label.
   pose proof (cnt_nonneg is_lefttok (prods s)) as N1. revert N1. revert H.
-  step_cases; intros N1 T1 T3 B1 B5 B6 F N W1 W2;
+  step_cases; intros N1 T1 T3 B1 B5 B6 F N W1;
     try (specialize (T3 _ eq_refl));
     try match goal with
     | H : pget ?p (prods s) = Some (?C ?sz) |- _ =>
@@ -92,7 +92,7 @@ Proof.
     try match goal with
     | H : find_id ?id (inflight s) = Some ?sz |- _ => pose proof (nonneg_find _ _ _ B5 H)
     end;
-    try (specialize (W1 eq_refl)); try (specialize (W2 eq_refl));
+    try (specialize (W1 eq_refl));
     cnt_rw; unfold b2z in *; intros; auto; try lia; try (right; left; reflexivity);
     try (left; lia);
     try (destruct N as [?|[?|?]]; [lia|left; lia|right; left; assumption|right; right; lia]).
@@ -100,7 +100,7 @@ Qed.
 
 Definition fullinv (c : cfg) (s : st) : Prop := allinv c s /\ awaitinv s /\ fitinv c s /\ wakeinv s.
 
-Lemma reach_fit_inv c s : 0 <= cap c -> reachable_fit c s -> fullinv c s.
+Lemma reach_fit_inv c s : 0 <= cap c -> reachable c s -> fullinv c s.
 Proof.
   intros Hc. apply reachP_ind.
   - split; [|split; [|split]].
@@ -108,9 +108,8 @@ Proof.
     + apply awaitinv_init.
     + intros p v sz H. discriminate.
     + intros H. simpl in H. lia.
-  - intros s0 l s1 z R0 ((I1 & I2 & I3 & I4) & I5 & I6 & I7) [W1 W2] Hs.
-    pose proof (reach_nofault _ c s0 (fun l H => proj1 H) R0) as NF.
-    pose proof (reach_nofault2 _ c s0 (fun l H => proj1 H) R0) as NF2.
+  - intros s0 l s1 z R0 ((I1 & I2 & I3 & I4) & I5 & I6 & I7) W1 Hs.
+    pose proof (reach_nofault _ c s0 (fun l H => H) R0) as NF.
     split; [|split; [|split]].
     + split; [|split; [|split]].
       * eapply tokinv_step; eauto.
@@ -180,7 +179,7 @@ Qed.
    deadlock — and on runs without an oversized request on a persistent queue (S1), every producer has
    returned: nobody is left blocked, with or without space, cancelled or not, waiting for a result or not. *)
 Lemma no_lost_wakeup_partial_l c s :
-  0 <= cap c -> reachable_fit c s -> quiescent c s -> lock s = Free -> all_returned s.
+  0 <= cap c -> reachable c s -> quiescent c s -> lock s = Free -> all_returned s.
 Proof.
   intros Hc R Q L.
   destruct (reach_fit_inv _ _ Hc R) as (((T1 & T2 & T3 & T4) & (B1 & _ & B3 & _) & (_ & _ & _ & _ & _ & G6) & _) & A & F & N).
